@@ -355,6 +355,22 @@ func (s *Sim) Teardown() {
 	}
 }
 
+// LeakedLockWaiters counts the goroutines that wait at an automatic lock probe for a mutex that
+// is still held. Asked when a run is over (everything quiescent): if the holder is not one of
+// the parked goroutines, nobody will ever release that mutex.
+func (s *Sim) LeakedLockWaiters() int {
+	s.mu.Lock()
+	ps := append([]*Parked(nil), s.parked...)
+	s.mu.Unlock()
+	n := 0
+	for _, p := range ps {
+		if p.Kind == "autolock" && p.Enabled != nil && !p.Enabled() {
+			n++
+		}
+	}
+	return n
+}
+
 // InTeardown reports whether parks pass through.
 func (s *Sim) InTeardown() bool { return s.teardown.Load() || s.inline.Load() }
 
